@@ -571,6 +571,13 @@ func checkC04(c *Ctx, r *Report) {
 
 // c04ReflectIndex: arguments of reflect Type.Field / Value.Field / Value.Index.
 func c04ReflectIndex(c *Ctx, r *Report, f *ssa.Function, rule string) {
+	c04ReflectIndexOpt(c, r, f, rule, false)
+}
+
+// lowOnly: decide only that the index cannot be negative (the decoder's element loops advance
+// cursors the engine does not bound from above; their upper bounds are loop conditions C16.R3
+// looks at)
+func c04ReflectIndexOpt(c *Ctx, r *Report, f *ssa.Function, rule string, lowOnly bool) {
 	e := newRelEngine(c, f, nil)
 	// pure reflect size calls are named by their receiver so that two calls agree
 	base := e.fe.override
@@ -646,6 +653,11 @@ func c04ReflectIndex(c *Ctx, r *Report, f *ssa.Function, rule string) {
 			if ok, _ := e.prove(polyAdd(e.fe.eval(idx), atomPoly(sa), -1), -1, nil, call.Block()); ok {
 				okHigh = true
 			}
+		}
+		if lowOnly {
+			okLow = okLow || signNonNegative(idx, map[ssa.Value]bool{})
+			r.check(okLow, rule, key, posOf(c, call), "index not negative on this path", "the reflect "+name+" index "+e.fe.eval(idx).String()+" can be negative where it is used (a look-up that reports `not found` as -1, a counter that starts below zero): reflect panics with `index out of range` instead of the decoder returning an error")
+			return
 		}
 		r.check(okLow && okHigh, rule, key, posOf(c, call), "index within [0, "+size+") on this path", "the reflect "+name+" index "+e.fe.eval(idx).String()+" is used before it is shown to be within [0, "+size+"()): an out-of-range selector (e.g. a CHOICE Present that is negative or too large) panics inside reflect instead of returning an error")
 	})
@@ -1125,8 +1137,28 @@ func c05DescentOffsets(c *Ctx, r *Report, rule string) {
 			return
 		}
 		lv, whole, ok := lowOf(call.Call.Args[1])
+		// the octets handed down may be a variable that one path re-slices (`bytes = bytes[k:]` under
+		// an explicit tag) and the other leaves alone: every alternative is a slice of the input
+		type altArg struct {
+			low   ssa.Value
+			whole bool
+			from  *ssa.BasicBlock
+		}
+		var alts []altArg
 		if !ok {
-			return
+			ph, isPhi := call.Call.Args[1].(*ssa.Phi)
+			if !isPhi {
+				return
+			}
+			for i, ed := range ph.Edges {
+				l2, w2, ok2 := lowOf(ed)
+				if !ok2 {
+					n++
+					r.viol(rule, fmt.Sprintf("%s|descent #%d", fnKey(pf), n), posOf(c, call), "undecided: the octets handed to the recursive call are "+describe(ed)+" on one path, not a slice of the input this rule can place")
+					return
+				}
+				alts = append(alts, altArg{l2, w2, ph.Block().Preds[i]})
+			}
 		}
 		n++
 		key := fmt.Sprintf("%s|descent #%d", fnKey(pf), n)
@@ -1147,7 +1179,7 @@ func c05DescentOffsets(c *Ctx, r *Report, rule string) {
 			return best
 		}
 		// the common case: the very value the header was parsed at
-		if g := governing(call.Block(), call); g != nil || whole {
+		if g := governing(call.Block(), call); len(alts) == 0 && (g != nil || whole) {
 			o := poly{}
 			if !whole {
 				o = e.fe.eval(lv)
@@ -1158,7 +1190,20 @@ func c05DescentOffsets(c *Ctx, r *Report, rule string) {
 			}
 		}
 		var leaves []phiLeaf
-		if whole {
+		if len(alts) > 0 {
+			for _, a := range alts {
+				if a.whole {
+					leaves = append(leaves, phiLeaf{val: nil, from: a.from})
+					continue
+				}
+				for _, lf := range leavesOf(a.low) {
+					if lf.from == nil {
+						lf.from = a.from
+					}
+					leaves = append(leaves, lf)
+				}
+			}
+		} else if whole {
 			leaves = []phiLeaf{{val: nil}}
 		} else {
 			leaves = leavesOf(lv)
@@ -1687,4 +1732,51 @@ func c04HeaderCursor(c *Ctx, r *Report, rule string) {
 	if n == 0 {
 		r.proven(rule, fnKey(f)+"|digits blocks", c.rel(f.Pos()), "the header is assembled without indexed writes into pre-sized blocks (C04.R9/R10 cover the digits appended one by one)")
 	}
+}
+
+// signNonNegative: v is a counter that starts at a non-negative constant and is only added to,
+// a length, or a conversion of such a value (phis: every edge; a cycle contributes nothing new).
+func signNonNegative(v ssa.Value, seen map[ssa.Value]bool) bool {
+	if seen[v] {
+		return true
+	}
+	seen[v] = true
+	switch x := v.(type) {
+	case *ssa.Const:
+		k, ok := constInt(x)
+		return ok && k >= 0
+	case *ssa.Phi:
+		for _, e := range x.Edges {
+			if !signNonNegative(e, seen) {
+				return false
+			}
+		}
+		return true
+	case *ssa.BinOp:
+		if x.Op == token.ADD || x.Op == token.MUL {
+			return signNonNegative(x.X, seen) && signNonNegative(x.Y, seen)
+		}
+	case *ssa.Convert:
+		if b, ok := x.X.Type().Underlying().(*types.Basic); ok && b.Info()&types.IsUnsigned != 0 {
+			// a widening conversion of an unsigned value
+			if sizeOfBasic(x.Type()) > sizeOfBasic(b) {
+				return true
+			}
+		}
+		return signNonNegative(x.X, seen)
+	case *ssa.Call:
+		if b, ok := x.Call.Value.(*ssa.Builtin); ok && (b.Name() == "len" || b.Name() == "cap") {
+			return true
+		}
+		if obj := calleeObj(&x.Call); obj != nil && obj.Pkg() != nil && obj.Pkg().Path() == "reflect" && (obj.Name() == "NumField" || obj.Name() == "Len") {
+			return true
+		}
+	case *ssa.UnOp:
+		if x.Op == token.MUL {
+			if rv := resolveLocalLoad(x); rv != ssa.Value(x) {
+				return signNonNegative(rv, seen)
+			}
+		}
+	}
+	return false
 }
